@@ -94,7 +94,7 @@ pub fn pawnfns(noise: u64) {
 
 /// C19: operation sequences on CacheTable<u64>; the predicate of replace_if is one of a few
 /// fixed functions identified by a code.
-fn pred(code: u64, x: u64) -> bool { match code { 0 => false, 1 => true, 2 => x % 2 == 0, 3 => x > 1000, _ => x == 0 } }
+pub fn pred(code: u64, x: u64) -> bool { match code { 0 => false, 1 => true, 2 => x % 2 == 0, 3 => x > 1000, _ => x == 0 } }
 pub fn cache(n: u64) {
     std::panic::set_hook(Box::new(|_| {}));
     let mut rng = Rng::new(seed_from_env());
@@ -118,7 +118,10 @@ pub fn cache(n: u64) {
             Ok(mut t) => {
                 let nops = 5 + rng.below(60);
                 // a small pool of hashes so that collisions and repeats are common
-                let pool: Vec<u64> = (0..6).map(|k| match k { 0 => 0, 1 => rng.below(size as u64 * 2 + 1), 2 => (rng.below(4) * size as u64).wrapping_add(rng.below(size as u64 + 1)), 3 => u64::MAX - rng.below(3), _ => rng.next() }).collect();
+                let mut pool: Vec<u64> = (0..6).map(|k| match k { 0 => 0, 1 => rng.below(size as u64 * 2 + 1), 2 => (rng.below(4) * size as u64).wrapping_add(rng.below(size as u64 + 1)), 3 => u64::MAX - rng.below(3), _ => rng.next() }).collect();
+                // hashes that share a slot (and most of their bits) with another pool member: one differing
+                // bit anywhere, in particular in the upper half only
+                for k in 0..4 { let base = pool[(k + 2) % 6]; let bit = if k % 2 == 0 { 32 + rng.below(32) } else { rng.below(64) }; pool.push(base ^ (1u64 << bit)); }
                 for _ in 0..nops {
                     let h = if rng.chance(4, 5) { *rng.pick(&pool) } else { rng.next() };
                     match rng.below(3) {
